@@ -52,11 +52,17 @@ def gen_rule_for(rng, world, name, depth=None):
     if succ and rng.random() < 0.25:
         # alias override: always to the first successor (keeps references
         # acyclic when several successors share the predecessor)
+        if rng.random() < 0.15:
+            return ['paren', ['rule', succ[0]]]   # "(rule:new)": same alias
         return ['rule', succ[0]]
-    if succ and rng.random() < 0.08:
-        # textually equal to the deprecated default: left unconstrained
+    if succ and rng.random() < 0.12:
         d = [d for d in world['defaults'] if d['name'] == succ[0]][0]
-        return copy.deepcopy(d['dep']['ast'])
+        if rng.random() < 0.5:
+            # textually equal to the deprecated default: unconstrained
+            return copy.deepcopy(d['dep']['ast'])
+        # the same check in another spelling (redundant parentheses): NOT
+        # textually equal, so it governs like any other override
+        return ['paren', copy.deepcopy(d['dep']['ast'])]
     if depth is None:
         depth = rng.choice((0, 0, 1, 1, 2, 3))
     return rast.gen(rng, roles, _ref_pool(world, name), depth)
@@ -138,6 +144,25 @@ def gen_world(rng, flavour):
         w['universe'] = ['extra']
     w['probe_names'] = w['universe'] + [NEVER] + \
         (['default'] if 'default' not in w['universe'] else [])
+    # decisions asked with a Check object instead of a name (public API:
+    # enforce(rule=BaseCheck)); the trees reach named rules through
+    # not / and / or / a custom check
+    w['trees'] = []
+    if rng.random() < 0.35:
+        for _ in range(rng.choice((1, 2))):
+            x = ['rule', rng.choice(w['universe'])]
+            w['trees'].append(rng.choice((
+                ['not', x], ['not', ['not', x]],
+                ['and', [x, ['role', rng.choice(w['roles'][:3])]]],
+                ['or', [['false'], ['not', x]]], x)))
+        w['probe_names'] = w['probe_names'] + \
+            ['@tree:%d' % i for i in range(len(w['trees']))]
+    # late registration: some defaults are registered on the long-lived
+    # enforcer only after it has already loaded once
+    if flavour in ('c10', 'c11') and rng.random() < 0.25:
+        for d in w['defaults']:
+            if rng.random() < 0.5:
+                d['late'] = True
 
     return gen_layout(rng, w, flavour)
 
@@ -149,9 +174,17 @@ def gen_layout(rng, w, flavour):
     # ---- configuration
     c = {}
     ndirs = rng.choice((0, 1, 1, 2, 2, 3))
-    pool = ['policy.d', 'extra.d', '@ROOT/abs.d', 'gone.d', 'late.d']
+    pool = ['policy.d', 'extra.d', '@ROOT/abs.d', 'gone.d', 'late.d',
+            'site[a].d', '@ROOT/opt/x?y [1]/pol.d']
     rng.shuffle(pool)
     c['policy_dirs'] = pool[:ndirs]
+    if ndirs >= 2 and rng.random() < 0.15:
+        # the same directory configured twice (it is applied twice, so its
+        # last position is what counts), possibly in another spelling
+        d0 = c['policy_dirs'][0]
+        if rng.random() < 0.4 and not d0.startswith('@ROOT/'):
+            d0 = '@ROOT/etc/' + d0
+        c['policy_dirs'].append(d0)
     c['dirs_via'] = rng.choice(('override', 'override', 'file'))
     if ndirs == 1 and c['policy_dirs'] == ['policy.d'] and \
             rng.random() < 0.5:
@@ -420,7 +453,7 @@ class Model:
                 continue
             if dep['name'] != name and dep['name'] in file_def:
                 ov = file_def[dep['name']]
-                if ov != ['rule', name]:
+                if rast.strip_parens(ov) != ['rule', name]:
                     if ov == dep['ast']:
                         unc.add(name)
                     eff[name] = ov
@@ -442,6 +475,12 @@ class Model:
             # an undefined reference resolves like an undefined name
             return eff.get('default')
         try:
+            if name.startswith('@tree:'):
+                tree = self.w['trees'][int(name[6:])]
+                if not eff:
+                    return bool(rast.ev(tree, set(roles),
+                                        lambda n: None))
+                return bool(rast.ev(tree, set(roles), lookup))
             if name in unc:
                 return None
             if name in eff:
@@ -592,7 +631,10 @@ class DiskSim:
     def build_defaults(self):
         return build_defaults(self.w['defaults'])
 
-    def make_enforcer(self, defaults=None, **kw):
+    def make_enforcer(self, defaults=None, include_late=True, **kw):
+        """include_late=False registers only the defaults not marked
+        'late'; late_defaults() gives the rest for a later
+        register_defaults() on the same enforcer."""
         from oslo_policy import policy
         pf = self.w['conf']['pf']
         conf = self.build_conf()
@@ -601,9 +643,19 @@ class DiskSim:
         if not pf['fallback']:
             kw.setdefault('fallback_to_json_file', False)
         e = policy.Enforcer(conf, **kw)
-        e.register_defaults(defaults if defaults is not None
-                            else self.build_defaults())
+        if defaults is None:
+            objs = self.build_defaults()
+            if not include_late:
+                late = {d['name'] for d in self.w['defaults']
+                        if d.get('late')}
+                self._late_objs = [o for o in objs if o.name in late]
+                objs = [o for o in objs if o.name not in late]
+            defaults = objs
+        e.register_defaults(defaults)
         return e
+
+    def late_defaults(self):
+        return getattr(self, '_late_objs', [])
 
     # ---- operator
     def apply(self, op):
@@ -660,6 +712,8 @@ class DiskSim:
         fn = e.enforce
         if c.get('use_authorize') and name in self.model.reg:
             fn = e.authorize
+        if name.startswith('@tree:'):
+            name = build_check(self.w['trees'][int(name[6:])])
         try:
             r = bool(fn(name, {}, creds))
         except Exception as ex:       # noqa - the outcome is what we record
@@ -739,6 +793,13 @@ def build_defaults(spec):
             out.append(policy.RuleDefault(d['name'], rast.show(d['ast']),
                                           **kw))
     return out
+
+
+def build_check(a):
+    """A Check tree for an AST, obtained through the public API
+    (Rules.from_dict parses check strings)."""
+    from oslo_policy import policy
+    return policy.Rules.from_dict({'t': rast.show(a)})['t']
 
 
 def diff_tables(a, b):
